@@ -333,13 +333,13 @@ def genes_list(genes, nsp):
     return [genes] * nsp
 
 
-def gene_tree_monitors(name, gtree, sptree, desc, n_expected, fails):
+def gene_tree_monitors(name, gtree, sptree, desc, n_expected, fails, species_of=None):
     ultra = desc["kind"] != "plain"
     structure_monitors(name, gtree, n_expected, fails, need_equidistant=ultra)
     taxa_monitors(name, gtree, fails, exactly_namespace=True)
     if any(name + c in [m for m, _ in fails] for c in (".well_formed", ".distinct_taxa")) or any(l.taxon is None for l in T.leaves(gtree._seed_node)):
         return
-    bad = T.containment_violations(gtree._seed_node, sptree._seed_node, gene_species_fn(sptree))
+    bad = T.containment_violations(gtree._seed_node, sptree._seed_node, species_of or gene_species_fn(sptree))
     if bad:
         g1, g2, dg, ds = bad[0]
         fails.append((name + ".containment", "genes %s and %s join after %r (along each lineage) but their species diverged %r ago"
@@ -387,6 +387,17 @@ def eval_containing(cfg, seed):
     ct = reconcile.ContainingTree(containing_tree=sp, contained_taxon_namespace=m.domain_taxon_namespace,
                                   contained_to_containing_taxon_map=m, fit_containing_edge_lengths=False)
 
+    species_of = None
+    if cfg.get("remap"):
+        # the genes are re-assigned to the NEXT species (in leaf order) after construction: the simulation follows the map it has NOW
+        name += "@remapped"
+        sp_leaves = [l.taxon for l in T.leaves(ct._seed_node)]
+        by_label = dict((t.label, i) for i, t in enumerate(sp_leaves))
+        new_map = dict((g, sp_leaves[(by_label[g.label.split("^")[0]] + 1) % len(sp_leaves)]) for g in m.domain_taxon_namespace)
+        ct.contained_to_containing_taxon_map = new_map
+        leaf_of = dict((l.taxon, l) for l in T.leaves(ct._seed_node))
+        species_of = lambda g: leaf_of[new_map[g.taxon]]
+
     def invoke(rng):
         return ct.simulate_contained_kingman(rng=rng, **kw)
 
@@ -395,7 +406,7 @@ def eval_containing(cfg, seed):
     if gtree is None:
         return fails
     nsp = len(T.leaves(sp._seed_node))
-    gene_tree_monitors(name, gtree, ct, cfg["sp"], sum(genes_list(cfg["genes"], nsp)), fails)
+    gene_tree_monitors(name, gtree, ct, cfg["sp"], sum(genes_list(cfg["genes"], nsp)), fails, species_of=species_of)
     return fails
 
 
@@ -650,6 +661,8 @@ def gen_items(ctx):
                 cfg = dict(sp=sp, genes=genes, pop=pop)
                 nl = n_leaves(_tup(sp["shape"]))
                 items.append((sc, "containing", cfg, list(range(gseeds // 2)), sum(genes_list(genes, nl)) >= 3))
+                if pop == "default" and genes in (2, "mixed"):
+                    items.append((sc, "containing", dict(cfg, remap=True), list(range(gseeds // 4)), sum(genes_list(genes, nl)) >= 3))
     sc = "contained_fresh_args@seeds"
     ctx.scope(sc, "contained_coalescent_tree on arguments rebuilt with equal content for each of %d runs, 2 fixed species trees x 4 genes per species "
                   "x seeds 0..1; non-trivial = all" % FRESH_TRIES, exhaustive=False)
